@@ -8,7 +8,7 @@
 (* Violations are reported through PrintT from an always-true invariant so *)
 (* that one pass collects all of them.                                     *)
 (***************************************************************************)
-EXTENDS Conform, Json, IOUtils
+EXTENDS Conform, DocProps, EnrichProps, Json, IOUtils
 
 Trace == ndJsonDeserialize(IOEnv.VT_TRACE)
 Which == IOEnv.VT_PROPS        \* comma separated property ids to evaluate, e.g. "C01,C03"
@@ -62,7 +62,7 @@ WireRun(h) == h.out.set /\ h.par.entry = "proto"
 snt1(h) == SentOfRun(h, 1)
 dl1(h) == DelOfRun(h, 1)
 
-PropIds == {"C12", "C01", "C02", "C03", "C04", "C05", "C06", "C07", "C08", "C09", "C10", "C11", "C15", "C19", "C20"}
+PropIds == {"C16", "C17", "C18", "C12", "C01", "C02", "C03", "C04", "C05", "C06", "C07", "C08", "C09", "C10", "C11", "C15", "C19", "C20"}
 ReqRun(h) == h.out.set /\ h.par.entry = "run"
 EngRun(h) == h.out.set /\ h.par.entry = "engine"
 
@@ -109,9 +109,12 @@ C12_twin(h, s) ==
 \* is property p applicable to the finished scenario h / does it hold (evaluated lazily, only when applicable)
 App(p, h) ==
     LET s == snt1(h)  ok == h.out.ok IN
-    CASE h.out.set /\ h.par.entry = "alloc" -> p = "C11"
+    CASE h.out.set /\ h.par.entry = "doc" -> p \in {"C16", "C17", "C18"}
+      [] h.out.set /\ h.par.entry = "cache" -> p = "C18"
+      [] h.out.set /\ h.par.entry = "pubip" -> p = "C18" \/ p = "C08"
+      [] h.out.set /\ h.par.entry = "alloc" -> p = "C11"
       [] EngRun(h) -> p \in {"C03", "C05", "C06", "C08", "C10"} \/ (p = "C07" /\ h.par.variant = "engine_parallel")
-      [] ReqRun(h) -> (p = "C11" /\ h.par.via = "lib") \/ p = "C15" \/ (p = "C19" /\ h.par.expect.kind # "none") \/ (p = "C20" /\ h.par.expect20.out # "none")
+      [] ReqRun(h) -> (p = "C11" /\ h.par.via = "lib") \/ p = "C15" \/ (p = "C19" /\ h.par.expect.kind # "none") \/ (p = "C20" /\ h.par.expect20.out # "none") \/ (p = "C17" /\ Len(h.par.expect17.routers) > 0)
       [] p \in {"C01", "C04", "C05"} -> WireRun(h) /\ ok
       [] p \in {"C02", "C03"}        -> WireRun(h) /\ ok /\ Len(s) >= 1
       [] p \in {"C06", "C08", "C10"} -> WireRun(h)
@@ -126,10 +129,16 @@ App(p, h) ==
 
 Holds(p, h) ==
     LET s == snt1(h)  d == dl1(h)  hp == h.out.hops IN
-    CASE h.par.entry = "alloc" -> C11_alloc(h)
+    CASE h.par.entry = "doc" -> (CASE p = "C16" -> C16_json(h.out) /\ Conforms(h.par.docin, h.out.doc)
+                                   [] p = "C17" -> h.out.panic = "" /\ C17_json(h.par.docin, h.out)
+                                   [] p = "C18" -> C18_json(h.par.docin, h.out) [] OTHER -> TRUE)
+      [] h.par.entry = "cache" -> C18_cache(h.par.ttl_ms, h.got)
+      [] h.par.entry = "pubip" -> (CASE p = "C18" -> (~h.par.expect.stalls => C18_pub(h.par.expect, h.got, h.out))
+                                     [] p = "C08" -> C08_pub(h.par.expect, h.got, h.out) [] OTHER -> TRUE)
+      [] h.par.entry = "alloc" -> C11_alloc(h)
       [] EngRun(h) -> (CASE p = "C03" -> C03_eng(h) [] p = "C05" -> C05_eng(h) [] p = "C06" -> C06_eng(h)
                           [] p = "C07" -> C07_eng(h) [] p = "C08" -> C08_eng(h) [] p = "C10" -> C10_eng(h) [] OTHER -> TRUE)
-      [] ReqRun(h) -> (CASE p = "C11" -> C11_run(h) [] p = "C15" -> C15_run(h) [] p = "C19" -> C19_run(h) [] p = "C20" -> C20_run(h) [] OTHER -> TRUE)
+      [] ReqRun(h) -> (CASE p = "C11" -> C11_run(h) [] p = "C15" -> C15_run(h) [] p = "C19" -> C19_run(h) [] p = "C20" -> C20_run(h) [] p = "C17" -> C17_run(h) [] OTHER -> TRUE)
       [] p = "C01" -> C01_run(h, s, d, hp)
       [] p = "C02" -> C02_run(h, s, d, hp)
       [] p = "C03" -> C03_run(h, s, d, hp)
